@@ -47,9 +47,12 @@ def cases(tier, rng):
     for j in range(250 if tier == "quick" else 8000):
         key = rng.randrange(1, N); msg = rng.choice(msgs[:14] + ["m%d" % j])
         mut = rng.choice(["none", "flip_r", "flip_s", "hdr", "hdr35", "hdr26", "hdr_any", "hdr_plus2", "hdr_plus2", "small_r", "random", "other_msg",
-                          "other_addr", "flip_class", "s_neg", "size", "s_zero", "s_eq_n"])
-        yield {"k": "rej", "net": rng.choice(["mainnet", "testnet"]), "key": key, "msg": msg, "comp": rng.random() < 0.5, "mut": mut,
-               "bit": rng.randrange(256), "h": rng.randrange(256), "rnd": rand_hex(rng, 65)}
+                          "other_addr", "flip_class", "s_neg", "size", "s_zero", "s_eq_n", "addr_p2sh", "addr_other_net", "addr_bad_check", "addr_bad_check"])
+        c = {"k": "rej", "net": rng.choice(["mainnet", "testnet"]), "key": key, "msg": msg, "comp": rng.random() < 0.5, "mut": mut,
+             "bit": rng.randrange(256), "h": rng.randrange(256), "rnd": rand_hex(rng, 65)}
+        yield c
+        if mut not in ("other_addr", "addr_p2sh", "addr_other_net", "addr_bad_check", "other_msg"):
+            yield dict(c, k="rejrec")
 
 
 P_FIELD = 0xFFFFFFFFFFFFFFFFFFFFFFFFFFFFFFFFFFFFFFFFFFFFFFFFFFFFFFFEFFFFFC2F
@@ -136,6 +139,17 @@ def _triple(d):
     elif m == "random": sig = bytearray.fromhex(d["rnd"])
     elif m == "other_msg": msg = msg + "!"
     elif m == "other_addr": addr = _ref_addr(dict(d, key=(d["key"] % (N - 1)) + 1))
+    elif m in ("addr_p2sh", "addr_other_net", "addr_bad_check"):
+        # the signer's own 20-byte hash under another version byte, or with a damaged checksum: not the signer's address
+        import coincurve, hashlib
+        from Crypto.Hash import RIPEMD160
+        pub = coincurve.PrivateKey(d["key"].to_bytes(32, "big")).public_key.format(d["comp"])
+        h = RIPEMD160.new(hashlib.sha256(pub).digest()).digest()
+        if m == "addr_p2sh": addr = _addr("p2sh", d["net"], h)
+        elif m == "addr_other_net": addr = _addr("p2pkh", "testnet" if d["net"] == "mainnet" else "mainnet", h)
+        else:
+            i = len(addr) - 1 - (d["bit"] % 5); B58 = "123456789ABCDEFGHJKLMNPQRSTUVWXYZabcdefghijkmnopqrstuvwxyz"
+            addr = addr[:i] + B58[(B58.index(addr[i]) + 1 + d["h"] % 56) % 58] + addr[i + 1:]
     elif m == "flip_class": sig[0] = sig[0] + 4 if sig[0] < 31 else sig[0] - 4
     elif m == "size": sig = [sig[:64], sig + sig[-1:], sig[:1], bytearray(), sig[1:], sig + bytearray(32)][d["bit"] % 6]   # not 65 bytes
     elif m == "s_neg": sig[33:] = (N - int.from_bytes(sig[33:], "big")).to_bytes(32, "big")
@@ -163,6 +177,9 @@ def impl(d):
         rec = guarded(lambda: PublicKey(message=msg, signature=sig).to_hex(False)) if msg else "EMPTY"
         return "verify=" + v + "|rec=" + rec
     addr, sig, msg = _triple(d)
+    if d["k"] == "rejrec":
+        # the recovery constructor on the same (message, signature): a key, or a refusal
+        return guarded(lambda: PublicKey(message=msg, signature=sig).to_hex(False)) if msg else "EMPTY"
     try:
         return "1" if PublicKey.verify_message(addr, base64.b64encode(sig).decode(), msg) else "0"
     except Exception:
@@ -202,6 +219,9 @@ def model(d):
     if d["k"] == "rej":
         addr, sig, msg = _triple(d)
         return sx("msg_verify", d["net"], addr.encode(), sig, Raw("x" + msg.encode("utf-8").hex()))
+    if d["k"] == "rejrec":
+        addr, sig, msg = _triple(d)
+        return sx("msg_recover", Raw("x" + msg.encode("utf-8").hex()), sig)
     return None
 
 
@@ -209,6 +229,8 @@ def post(d, out):
     if d["k"] == "forged":
         v, rec = out.split("|")
         return "verify=%s|rec=%s" % (v, "EMPTY" if d["msg"] == "" else rec)
+    if d["k"] == "rejrec":
+        return "EMPTY" if d["msg"] == "" else out
     if d["k"] == "sv":
         v, rec = out.split("|")
         rec = "EMPTY" if d["msg"] == "" else rec
@@ -225,6 +247,8 @@ def oracle(d):
         addr, sig, msg, q = _forged_valid(d)
         return "verify=1|rec=%s" % (q if msg else "EMPTY")
     # acceptance = a libsecp256k1-based recovery accepts the triple
+    if d["k"] == "rejrec":
+        return None          # what the recovery constructor does with an invalid signature is the model's business only
     addr, sig, msg = _triple(d)
     if len(sig) != 65: return "0"
     h = sig[0]
